@@ -755,3 +755,170 @@ Proof.
   - destruct (good_images _ _ _ _ _ (clean_good _ _ _ _ _ C) HK HK (Z.le_refl _) Hi Hi Hv); assumption.
   - apply restart_clean. eapply clean_image_cleanv; [eassumption|lia|assumption].
 Qed.
+
+(* ================================================================ what the session does between two switches *)
+
+(* operations on other files: anything that keeps the files of K and leaves the CURRENT family alone *)
+Inductive foreign (K : list bytes) : fsop -> Prop :=
+| fo_create n : ~ famc n -> foreign K (OCreate n)
+| fo_write n d : ~ famc n -> foreign K (OWrite n d)
+| fo_fsync n : ~ famc n -> foreign K (OFsync n)
+| fo_rename a b : ~ famc a -> ~ famc b -> ~ In a K -> foreign K (ORename a b)
+| fo_unlink n : ~ famc n -> ~ In n K -> foreign K (OUnlink n)
+| fo_syncdir : foreign K OSyncDir.
+
+Lemma not_famc n : ~ famc n -> n <> s_CURRENT /\ n <> s_CURRENT_bak /\ forall z, n <> pend_name z.
+Proof.
+  intro H. split; [|split].
+  - intro X. apply H. now left.
+  - intro X. apply H. right. now left.
+  - intros z X. apply H. right. right. eauto.
+Qed.
+
+Lemma rename_cases {A} (e : list (bytes * A)) a b x : lookup e a = Some x -> forall m i,
+  lookup (rename_at e a b) m = Some i -> (m = b /\ i = x) \/ (m <> b /\ m <> a /\ lookup e m = Some i).
+Proof.
+  intros E m i. rewrite (lookup_rename_at _ _ _ _ _ E). beq_case' b m; [intro H; inversion H; auto|].
+  beq_case' a m; [discriminate|]. intro H. right. repeat split; try assumption.
+  - intro X. subst m. now rewrite beq_refl in E0.
+  - intro X. subst m. now rewrite beq_refl in E1.
+Qed.
+
+Lemma clean_syncdir s A B K i0 : clean s A B K i0 -> clean (fapply s OSyncDir) A B K i0.
+Proof.
+  intro C. cbn [fapply]. constructor; cbn [ents dents pdir inos next]; try apply C.
+  - intros n i [].
+  - intros n i Hn Hl. split; [|intros z []]. intros z Hz. apply (Hn z). exact (k_inj _ _ _ _ _ C _ _ _ Hl Hz).
+  - constructor.
+Qed.
+
+Lemma clean_foreign s A B K i0 o : clean s A B K i0 -> foreign K o -> clean (fapply s o) A B K i0.
+Proof.
+  intros C F. destruct F as [n Hn|n d Hn|n Hn|a b Ha Hb HK|n Hn HK|].
+  - destruct (not_famc _ Hn) as (N1 & _ & N3). destruct (lookup (ents s) n) as [i|] eqn:E.
+    + rewrite (fapply_create_existing _ _ _ E). eapply clean_upd_other; eassumption.
+    + now apply clean_link_new.
+  - destruct (not_famc _ Hn) as (N1 & _ & N3). destruct (lookup (ents s) n) as [i|] eqn:E.
+    + rewrite (fapply_write _ _ _ _ E). eapply clean_upd_other; eassumption.
+    + cbn [fapply]. now rewrite E.
+  - destruct (not_famc _ Hn) as (N1 & _ & N3). destruct (lookup (ents s) n) as [i|] eqn:E.
+    + rewrite (fapply_fsync _ _ _ E). eapply clean_upd_other; eassumption.
+    + cbn [fapply]. now rewrite E.
+  - destruct (not_famc _ Ha) as (A1 & _ & A3). destruct (not_famc _ Hb) as (B1 & _ & B3).
+    cbn [fapply]. destruct (lookup (ents s) a) as [x|] eqn:E; [|exact C].
+    pose proof (rename_cases (ents s) a b x E) as Hr.
+    constructor; cbn [ents dents pdir inos next]; try apply C.
+    + intros n m i H1 H2. apply Hr in H1, H2.
+      destruct H1 as [[-> ->]|(Ha1 & Ha2 & Ha3)], H2 as [[-> H2]|(Hb1 & Hb2 & Hb3)]; try reflexivity.
+      * exfalso. apply Hb2. exact (k_inj _ _ _ _ _ C _ _ _ Hb3 E).
+      * subst i. exfalso. apply Ha2. exact (k_inj _ _ _ _ _ C _ _ _ Ha3 E).
+      * exact (k_inj _ _ _ _ _ C _ _ _ Ha3 Hb3).
+    + intros n i H. apply Hr in H. destruct H as [[_ ->]|(_ & _ & H)]; eapply (k_bnd_e _ _ _ _ _ C); eassumption.
+    + intros n i H. apply in_app_or in H. destruct H as [H|[H|[]]]; [now apply (k_bnd_p _ _ _ _ _ C) in H|discriminate].
+    + intros n i Hn Hl. apply Hr in Hl. destruct Hl as [[-> ->]|(_ & _ & Hl)].
+      * destruct (k_sep _ _ _ _ _ C a x A3 E) as [S1 S2]. split; [exact S1|].
+        intros z Hin. apply in_app_or in Hin. destruct Hin as [Hin|[Hin|[]]]; [now apply (S2 z)|discriminate].
+      * destruct (k_sep _ _ _ _ _ C n i Hn Hl) as [S1 S2]. split; [exact S1|].
+        intros z Hin. apply in_app_or in Hin. destruct Hin as [Hin|[Hin|[]]]; [now apply (S2 z)|discriminate].
+    + apply Forall_app. split; [apply C|]. constructor; [|constructor]. cbn [okop]. auto.
+    + rewrite (lookup_rename_at _ _ _ _ _ E), (beq_neq b s_CURRENT), (beq_neq a s_CURRENT) by assumption. apply C.
+    + intros k Hk. apply has_lookup. rewrite (lookup_rename_at _ _ _ _ _ E). destruct (beq b k); [discriminate|].
+      rewrite beq_neq by (intro X; subst; contradiction). apply has_lookup. now apply (k_keep_e _ _ _ _ _ C).
+    + intros z i H. apply Hr in H. destruct H as [[H _]|(_ & _ & H)]; [symmetry in H; now apply B3 in H|].
+      exact (k_pend_e _ _ _ _ _ C z i H).
+  - destruct (not_famc _ Hn) as (N1 & _ & N3).
+    cbn [fapply]. destruct (lookup (ents s) n) as [x|] eqn:E; [|exact C].
+    assert (forall m i, lookup (remove_at (ents s) n) m = Some i -> lookup (ents s) m = Some i) as Hr.
+    { intros m i. rewrite lookup_remove_at. destruct (beq n m); [discriminate|auto]. }
+    constructor; cbn [ents dents pdir inos next]; try apply C.
+    + intros a b i H1 H2. apply Hr in H1, H2. exact (k_inj _ _ _ _ _ C _ _ _ H1 H2).
+    + intros a i H. apply Hr in H. eapply (k_bnd_e _ _ _ _ _ C); eassumption.
+    + intros a i H. apply in_app_or in H. destruct H as [H|[H|[]]]; [now apply (k_bnd_p _ _ _ _ _ C) in H|discriminate].
+    + intros a i Ha Hl. apply Hr in Hl. destruct (k_sep _ _ _ _ _ C a i Ha Hl) as [S1 S2]. split; [exact S1|].
+      intros z Hin. apply in_app_or in Hin. destruct Hin as [Hin|[Hin|[]]]; [now apply (S2 z)|discriminate].
+    + apply Forall_app. split; [apply C|]. constructor; [|constructor]. cbn [okop]. auto.
+    + rewrite lookup_remove_at, beq_neq by assumption. apply C.
+    + intros k Hk. apply has_lookup. rewrite lookup_remove_at, beq_neq by (intro X; subst; contradiction).
+      apply has_lookup. now apply (k_keep_e _ _ _ _ _ C).
+    + intros z i H. apply Hr in H. exact (k_pend_e _ _ _ _ _ C z i H).
+  - now apply clean_syncdir.
+Qed.
+
+Lemma clean_K_sub s A B K K' i0 : clean s A B K i0 -> (forall k, In k K' -> In k K) -> clean s A B K' i0.
+Proof.
+  intros C Hs. constructor; try apply C.
+  - apply Forall_forall. intros o Ho. pose proof (proj1 (Forall_forall _ _) (k_ops _ _ _ _ _ C) o Ho) as Hok.
+    destruct o as [n j|a b j|n]; cbn [okop] in *; [exact Hok| |].
+    + destruct Hok as (H1 & H2 & H3). split; [assumption|split; [assumption|]]. intro X. apply H3. auto.
+    + destruct Hok as (H1 & H2). split; [assumption|]. intro X. apply H2. auto.
+  - intros k Hk. apply (k_keep _ _ _ _ _ C). auto.
+  - intros k Hk. apply (k_keep_e _ _ _ _ _ C). auto.
+  - intros k Hk. apply (k_Knf _ _ _ _ _ C). auto.
+Qed.
+
+Lemma clean_K_add s A B K i0 k : clean s A B K i0 -> pdir s = [] -> has (dents s) k = true -> has (ents s) k = true ->
+  ~ famc k -> clean s A B (k :: K) i0.
+Proof.
+  intros C Hp Hd He Hn. constructor; try apply C.
+  - rewrite Hp. constructor.
+  - intros k' [<-|Hk]; [assumption|now apply (k_keep _ _ _ _ _ C)].
+  - intros k' [<-|Hk]; [assumption|now apply (k_keep_e _ _ _ _ _ C)].
+  - intros k' [<-|Hk]; [assumption|now apply (k_Knf _ _ _ _ _ C)].
+Qed.
+
+Lemma gen_name_not_famc fd : int64_ok (fd_num fd) = true -> ~ famc (gen_name fd).
+Proof.
+  intros Hi [H|[H|(z & H)]]; destruct (gen_name_not_family fd Hi) as (H1 & H2 & H3); [auto|auto|now apply (H3 z)].
+Qed.
+
+(* ================================================================ a chain of switches *)
+
+Inductive chain_ev := EvForeign (o : fsop) | EvSwitch (B : fdesc).
+
+(* the events the session may issue: other files' operations that keep the current manifest; a switch to a newer
+   manifest that exists — newManifest syncs the manifest (file and directory) and then calls SetMeta; after the
+   switch only the new manifest has to stay *)
+Fixpoint valid_chain (s : fsys) (A : fdesc) (K : list bytes) (evs : list chain_ev) : Prop :=
+  match evs with
+  | [] => True
+  | EvForeign o :: l => foreign K o /\ valid_chain (fapply s o) A K l
+  | EvSwitch B :: l =>
+      has (ents s) (gen_name B) = true /\ (fd_num A < fd_num B)%Z /\ int64_ok (fd_num B) = true /\
+      valid_chain (set_meta (fapply s OSyncDir) B) B [gen_name B] l
+  end.
+
+(* every state between two file-system operations, with the manifests GetMeta may answer there *)
+Fixpoint chain_states (s : fsys) (A : fdesc) (evs : list chain_ev) : list (fsys * fdesc * fdesc) :=
+  match evs with
+  | [] => [(s, A, A)]
+  | EvForeign o :: l => (s, A, A) :: chain_states (fapply s o) A l
+  | EvSwitch B :: l =>
+      let s1 := fapply s OSyncDir in
+      let ops := set_meta_ops (vol_view s1) B in
+      (s, A, A) :: map (fun k => (fapply_all s1 (firstn k ops), A, B)) (seq 0 (S (length ops))) ++
+      chain_states (set_meta s1 B) B l
+  end.
+
+Definition safe (x : fsys * fdesc * fdesc) : Prop :=
+  let '(s, A, B) := x in forall v, crash_image s v -> get_meta_result v = GOk A \/ get_meta_result v = GOk B.
+
+Theorem chain_safe evs : forall s A K i0,
+  clean s A A K i0 -> In (gen_name A) K -> int64_ok (fd_num A) = true -> valid_chain s A K evs ->
+  Forall safe (chain_states s A evs).
+Proof.
+  induction evs as [|[o|B] l IH]; intros s A K i0 C HK Hi V; cbn [chain_states valid_chain] in *.
+  - constructor; [|constructor]. intros v Hv. left. eapply settled_across_crashes; eassumption.
+  - destruct V as [F V]. constructor.
+    + intros v Hv. left. eapply settled_across_crashes; eassumption.
+    + eapply IH; [eapply clean_foreign; eassumption|assumption|assumption|assumption].
+  - destruct V as (Hhas & Hlt & HiB & V). constructor.
+    + intros v Hv. left. eapply settled_across_crashes; eassumption.
+    + pose proof (clean_syncdir _ _ _ _ _ C) as C1. set (s1 := fapply s OSyncDir) in *.
+      assert (clean s1 A A (gen_name B :: K) i0) as C2.
+      { apply clean_K_add; [assumption|reflexivity|exact Hhas|exact Hhas|now apply gen_name_not_famc]. }
+      destruct (set_meta_crash_atomic s1 A B (gen_name B :: K) i0 C2 (or_intror HK) (or_introl eq_refl) Hlt Hi HiB) as (H1 & (j & H2) & H3).
+      apply Forall_app. split.
+      * apply Forall_forall. intros x Hx. apply in_map_iff in Hx. destruct Hx as (k & <- & _). exact (H1 k).
+      * apply (IH _ B [gen_name B] j); [|now left|assumption|assumption].
+        eapply clean_K_sub; [exact H2|]. intros k [<-|[]]. now left.
+Qed.
